@@ -363,6 +363,28 @@ def simple_cycles_only(shape):
     return True
 
 
+def random_digraph(rng, idx):
+    """unconstrained random reference digraph over 2..5 dataclasses: cycles may overlap.  Only used when the run-time brute
+    force over first-use orders (c20.order_safe) finds the sequential analysis order independent on it."""
+    n = rng.randrange(2, 6)
+    names = [f"C{i}" for i in range(n)]
+    classes = []
+    with_leaf = rng.random() < 0.5
+    for i, nm in enumerate(names):
+        fields = [("v", rng.choice([I, S, F, B]))]
+        for j, other in enumerate(names):
+            if rng.random() < (0.45 if j != i else 0.2):
+                wrap = rng.choice([O, L, D, lambda t: O(L(t)), lambda t: L(["union", I, t])])
+                fields.append((f"r{j}", wrap(R(other))))
+        if with_leaf and rng.random() < 0.5:
+            fields.append(("leaf", R("Leaf")))
+        classes.append(dc(nm, *fields))
+    if with_leaf:
+        classes.append(dc("Leaf", ("z", I)))
+    entries = [R(nm) for nm in rng.sample(names, min(n, rng.randrange(2, 5)))]
+    return {"name": f"randg{idx}", "classes": classes, "entries": entries}
+
+
 def random_shape(rng, idx):
     """random reference graph over 2..5 dataclasses whose cycles do not overlap: the classes are split into ordered groups,
     a group of >= 2 classes is a ring (with optional parallel edges), a singleton may reference itself, and further
